@@ -12,8 +12,8 @@ ASCII_SAFE = "abcdefghijklmnopqrstuvwxyzABCXYZ0123456789-_.;:/%=+*@#!?,()[]{}|~^
 MARKUP = "&<>\"'"
 LATIN1 = "éüñßÿ¡©"
 CP1252 = "€’…œ"
-BMP = "汉字Ωжあ"
-ASTRAL = "😀𝔘"
+BMP = "汉字Ωжあ" + "\u212b\u2126\uf900\u0301\u1100\u1161"  # incl. text that is not in normal form C (no normalisation is part of "strings equal")
+ASTRAL = "😀𝔘" + "\U0001d15e"
 ENTITY_LOOKALIKES = ["&amp;", "&#38;", "&lt;b&gt;", "&nbsp;", "a&b;", "&&", "<!--", "]]>", "<![CDATA[x]]>", "</OFX>", "<A>",
                      # double-escaped: the STORED value then literally contains an entity sequence
                      "&amp;amp;", "&amp;lt;b&amp;gt;", "x&amp;nbsp;y", "&amp;amp;amp;", "R&amp;amp;D <lab> & co", "&amp;gt;&gt;>", "&amp;apos;'", "&amp;quot;\""]
@@ -30,8 +30,8 @@ def gen_str(rng, maxlen, stratum="mixed"):
             n = rng.randint(1, min(cap, 10))
             s = "".join(rng.choice(ASCII_SAFE) for _ in range(n))
         elif r < 0.12 and cap < 400:
-            # exactly at the limit
-            s = "".join(rng.choice(ASCII_SAFE + " ") for _ in range(cap))
+            # exactly at the limit (every other time with characters that grow when escaped for the wire)
+            s = "".join(rng.choice(ASCII_SAFE + " " + (MARKUP[:3] * 4 if rng.random() < 0.5 else "")) for _ in range(cap))
         elif r < 0.30:
             s = rng.choice(ENTITY_LOOKALIKES) + "".join(rng.choice(ASCII_SAFE) for _ in range(rng.randint(0, 4)))
             if rng.random() < 0.5:
